@@ -18,6 +18,7 @@ static const char *backend;
 /* regression witnesses (corpus/witness-xml): every file is run unmutated by both back ends (cases 2w and 2w+1 belong to workers of
  * different parity, hence different HWLOC_LIBXML_IMPORT), through the buffer and the file entry point */
 static const char **wit, **witd; static unsigned nwit, nwitd;
+static int force_reuse_mode = -1;   /* witnesses are reused in every way; random cases rotate */
 static int try_topology(const char *doc, size_t len, int nul_inside, int byfile, int report, const char *keyprefix, char *wfkey, size_t wfn);
 static void try_diff(const char *doc, size_t len);
 static int witness_case(uint64_t index)
@@ -33,8 +34,11 @@ static int witness_case(uint64_t index)
   else {
     char kp[260]; snprintf(kp, sizeof kp, "witness=%.150s/%s/", nm, backend);
     for (int byfile = 0; byfile < 2; byfile++) for (int nul = 1; nul >= 0; nul--) { if (byfile && !nul) continue;
-      int r = try_topology(doc, len, nul, byfile, 1, kp, NULL, 0);
-      hv_stat(r == 0 ? "witness.rejected" : r == 1 ? "witness.loaded_wellformed" : "witness.loaded_illformed", 1); }
+      for (force_reuse_mode = 0; force_reuse_mode < 6; force_reuse_mode += force_reuse_mode ? 2 : 1) {      /* 0 (synthetic), 1, 3, 5 (documents) */
+        int r = try_topology(doc, len, nul, byfile, 1, kp, NULL, 0);
+        hv_stat(r == 0 ? "witness.rejected" : r == 1 ? "witness.loaded_wellformed" : "witness.loaded_illformed", 1);
+        if (r) break; } }
+    force_reuse_mode = -1;
   }
   hv_distinct(3, hv_hash_str(nm, hv_hash_str(backend, 7)));
   free(doc); unlink(tmp_path);
@@ -355,8 +359,29 @@ static int try_topology(const char *doc, size_t len, int nul_inside, int byfile,
     hv_stat("loads.failed", 1);
     /* the topology must be reusable after a failed load */
     hv_ctxkey("reuse_after_failure");
-    if (hwloc_topology_set_synthetic(t, "pu:1") != 0 || hwloc_topology_load(t) != 0) hv_viol("reuse_after_failure", "after a failed XML load the topology cannot be configured and loaded again");
-    else if (hwloc_get_nbobjs_by_type(t, HWLOC_OBJ_PU) != 1) hv_viol("reuse_after_failure", "reused topology has %d PUs instead of 1", hwloc_get_nbobjs_by_type(t, HWLOC_OBJ_PU));
+    static unsigned reuse_n; unsigned mode = force_reuse_mode >= 0 ? (unsigned)force_reuse_mode : ++reuse_n % 6;   /* 0,2,4: synthetic; 1,3,5: one of three documents */
+    if (mode % 2 == 0) {
+      if (hwloc_topology_set_synthetic(t, "pu:1") != 0 || hwloc_topology_load(t) != 0) hv_viol("reuse_after_failure", "after a failed XML load the topology cannot be configured and loaded again");
+      else if (hwloc_get_nbobjs_by_type(t, HWLOC_OBJ_PU) != 1) hv_viol("reuse_after_failure", "reused topology has %d PUs instead of 1", hwloc_get_nbobjs_by_type(t, HWLOC_OBJ_PU));
+    } else {
+      /* reuse with a valid document that carries CPU kinds, memory attributes and distances: whatever the failed load had already
+       * registered in these side structures must not survive into (or corrupt) the next load */
+      static const char *good[] = { "tests/hwloc/xml/fakecpukinds.xml", "tests/hwloc/xml/8intel64-4n2t-memattrs.xml", "tests/hwloc/xml/fakeheterodistances.xml" };
+      char path[4200]; snprintf(path, sizeof path, "%s/%s", HV.repo, good[(mode / 2) % 3]);
+      hv_ctxkey("reuse_after_failure:xml");
+      hv_stat("reuse_after_failure.xml", 1);
+      if (hwloc_topology_set_xml(t, path) != 0 || hwloc_topology_load(t) != 0) hv_viol("reuse_after_failure.xml", "after a failed XML load the topology cannot load %s", path);
+      else {
+        hwloc_topology_t ref; hwloc_topology_init(&ref); hwloc_topology_set_all_types_filter(ref, HWLOC_TYPE_FILTER_KEEP_ALL); hwloc_topology_set_flags(ref, hwloc_topology_get_flags(t));
+        if (hwloc_topology_set_xml(ref, path) == 0 && hwloc_topology_load(ref) == 0) {
+          struct hv_str a, b; hv_str_init(&a); hv_str_init(&b); canon_dump(t, CANON_ALL, &a); canon_dump(ref, CANON_ALL, &b);
+          if (strcmp(a.s, b.s)) { const char *x = a.s, *y = b.s; while (*x && *x == *y) { x++; y++; } while (x > a.s && x[-1] != '\n') { x--; y--; }
+            hv_viol("reuse_after_failure.differs", "a topology reused after a failed load differs from a fresh load of %s: '%.120s' vs '%.120s'", path, x, y); }
+          hv_str_free(&a); hv_str_free(&b);
+        }
+        hwloc_topology_destroy(ref);
+      }
+    }
   }
   hv_ctxkey("destroy");
   hwloc_topology_destroy(t);
